@@ -791,17 +791,38 @@ impl Hist {
 // ---------------------------------------------------------------------------------------------------
 // generators
 
+/// tick spacings (below the full-range-only threshold) whose first or last usable tick sits in the first or last slot of its tick
+/// array: the alignments on which array-boundary arithmetic at the ends of the tick range differs from the common spacings
+pub fn edge_aligned_spacings() -> &'static Vec<u16> {
+    static L: std::sync::OnceLock<Vec<u16>> = std::sync::OnceLock::new();
+    L.get_or_init(|| {
+        (1u16..32768)
+            .filter(|ts| {
+                let t = *ts as i32;
+                let slot = |tick: i32| (tick - array_start(tick, *ts)) / t;
+                let (last, first) = (MAX_TICK / t * t, MIN_TICK / t * t);
+                [slot(last), slot(first)].iter().any(|s| *s == 0 || *s == 87)
+            })
+            .collect()
+    })
+}
+
 pub fn spec_strategy(with_rewards: bool, wrap_bias: bool) -> BoxedStrategy<WorldSpec> {
     let spacing = prop_oneof![
-        4 => prop::sample::select(vec![1u16, 2, 8, 64, 128]),
-        2 => Just(64u16),
-        1 => Just(256u16),
-        1 => prop::sample::select(vec![32768u16, 32896]),
+        8 => prop::sample::select(vec![1u16, 2, 8, 64, 128]),
+        4 => Just(64u16),
+        2 => Just(256u16),
+        2 => prop::sample::select(vec![32768u16, 32896]),
+        // any spacing a fee tier can carry, and the edge-aligned ones
+        1 => 1u16..=600,
+        1 => prop::sample::select(edge_aligned_spacings().clone()),
     ];
+    // start ticks: around zero, anywhere, and inside the outermost arrays of the tick range (resolved against the spacing below)
     let start = prop_oneof![
-        6 => -30000i32..30000,
-        2 => gen::any_tick(),
-        1 => Just(0i32),
+        12 => -30000i32..30000,
+        4 => gen::any_tick(),
+        2 => Just(0i32),
+        1 => (any::<bool>(), 0i32..176).prop_map(|(top, k)| if top { i32::MAX - k } else { i32::MIN + k }),
     ];
     let growth = move || -> BoxedStrategy<u128> {
         if wrap_bias {
@@ -841,7 +862,14 @@ pub fn spec_strategy(with_rewards: bool, wrap_bias: bool) -> BoxedStrategy<World
     )
         .prop_map(|(tick_spacing, start_tick, off, fee_rate, protocol_fee_rate, dynamic_mask, n_lps, n_traders, growth_a0, growth_b0, rewards, rg)| WorldSpec {
             tick_spacing,
-            start_tick,
+            // the markers i32::MAX - k / i32::MIN + k mean: k usable ticks inside the top / bottom end of the tick range
+            start_tick: if start_tick > MAX_TICK {
+                MAX_TICK / tick_spacing as i32 * tick_spacing as i32 - (i32::MAX - start_tick).saturating_mul(tick_spacing as i32).min(MAX_TICK)
+            } else if start_tick < MIN_TICK {
+                MIN_TICK / tick_spacing as i32 * tick_spacing as i32 + (start_tick - i32::MIN).saturating_mul(tick_spacing as i32).min(MAX_TICK)
+            } else {
+                start_tick
+            },
             start_price_offset: off,
             fee_rate,
             protocol_fee_rate,
